@@ -19,6 +19,10 @@ pub struct TcpCase {
     pub opts: Vec<OptItem>,
     /// bytes appended after the well-formed items: makes the option area *malformed* (may be empty)
     pub raw_tail: Vec<u8>,
+    /// Ethernet only: 0 = frame as built; 1 = zero padding up to the 60-byte minimum frame size; 2 = padding + 4-byte FCS;
+    /// bytes behind the IP datagram are link-layer matter, not TCP payload
+    #[serde(default)]
+    pub wire: u8,
 }
 
 impl TcpCase {
@@ -30,7 +34,16 @@ impl TcpCase {
         t
     }
     pub fn frame(&self) -> Vec<u8> {
-        frame(self.link, &self.ip, &self.tcp_built())
+        let mut f = frame(self.link, &self.ip, &self.tcp_built());
+        if self.link == Link::Ether && self.wire % 3 != 0 {
+            if f.len() < 60 {
+                f.resize(60, 0);
+            }
+            if self.wire % 3 == 2 {
+                f.extend_from_slice(&[0xde, 0xad, 0xbe, 0xef]);
+            }
+        }
+        f
     }
     pub fn malformed(&self) -> bool {
         !self.raw_tail.is_empty()
@@ -387,6 +400,7 @@ impl TcpCase {
             tcp: Tcp::default(),
             opts: vec![],
             raw_tail: vec![],
+            wire: 0,
         }
     }
 }
